@@ -975,6 +975,12 @@ pub trait IdSetApi {
             r == self.spec_contains(*id),
     ;
 
+    /// `IdSet::is_empty` (abstract; provided so that code consulting it type-checks)
+    fn is_empty(&self) -> (r: bool)
+        ensures
+            r ==> forall|id: ID| !self.spec_contains(id),
+    ;
+
     /// `Encode::encode`: no contract (may write anything to the encoder)
     fn encode<E: Encoder>(&self, encoder: &mut E);
 }
